@@ -107,9 +107,48 @@ func FindTestdataBocs() []FoundBoc {
 			if i < 0 {
 				break
 			}
-			try(rel+"#embedded", data[off+i:])
+			cand := data[off+i:]
+			if n := bocLength(cand); n > 0 && n <= len(cand) {
+				try(rel+"#embedded", cand[:n]) // an answer of a lite server continues after the bag of cells
+			} else {
+				try(rel+"#embedded", cand)
+			}
 			off += i + 4
 		}
 	}
 	return out
+}
+
+// bocLength computes the total length of a serialized_boc#b5ee9c72 from its header (0 when the header is short).
+func bocLength(b []byte) int {
+	if len(b) < 6 {
+		return 0
+	}
+	flags := b[4]
+	size := int(flags & 7)
+	hasIdx, hasCrc := flags&0x80 != 0, flags&0x40 != 0
+	off := int(b[5])
+	if size == 0 || size > 4 || off == 0 || off > 8 || len(b) < 6+3*size+off {
+		return 0
+	}
+	rd := func(p, n int) int {
+		v := 0
+		for i := 0; i < n; i++ {
+			v = v<<8 | int(b[p+i])
+		}
+		return v
+	}
+	cells, roots := rd(6, size), rd(6+size, size)
+	tot := rd(6+3*size, off)
+	n := 6 + 3*size + off + roots*size + tot
+	if hasIdx {
+		n += cells * off
+	}
+	if hasCrc {
+		n += 4
+	}
+	if n < 0 {
+		return 0
+	}
+	return n
 }
